@@ -472,6 +472,16 @@ def corruptions(version, o, two_point_rng=None):
             oo = copy.deepcopy(o)
             get(oo, path)[key] = val
             yield section + "|object|constructor-argument:" + lab, ".".join(str(p) for p in path), oo
+        # ... joined with what the instruction would buy: an identifier only interoperability mode admits, in the same (embedded) object
+        host = get(o, path)
+        if path and isinstance(host, dict):
+            for rk, rv in list(host.items()):
+                if isinstance(rv, str) and rk.endswith("_ref") and "--" in rv:
+                    oo = copy.deepcopy(o)
+                    get(oo, path)[rk] = rv.split("--", 1)[0] + "--00000000-0000-0000-0000-000000000000"
+                    get(oo, path)["interoperability"] = True
+                    yield section + "|object|constructor-argument:interoperability-key-with-relaxed-identifier", ".".join(str(p) for p in path + (rk,)), oo
+                    break
         if path:
             oo = copy.deepcopy(o)
             setp(oo, path, {})
